@@ -14,6 +14,7 @@ EXPLANATION = (
     "(split(\"__\")) use the same separator literal; zsh likewise (replace(' ', \"__\")). R16.4 DET (no nondeterminism source "
     "reachable) and PANIC over the generator code. NOT decided: that each item is actually printed, nor anything about bash "
     "executing the script (needs a shell)."
+    " R16.2 (added): both possible_values helpers hand out the value parser's list as declared (callee whitelist)."
 )
 TRUSTED = ["rustc MIR", "clapfacts", "call-graph fan-out for trait calls", "audit/panic.tsv + audit/c16.tsv"]
 ASSUMPTIONS = ["Command::build() propagates bin names and builds all subcommands (C11 R11.1)"]
